@@ -150,7 +150,18 @@ func (t *ImmutableTree) Has(key []byte) (bool, error) {
 
 // Hash returns the root hash.
 func (t *ImmutableTree) Hash() []byte {
-	return t.root.hashWithCount(t.version + 1)
+	return t.root.hashWithCount(t.nextVersion())
+}
+
+// nextVersion returns the version that not yet saved nodes of the tree will be saved with:
+// the configured initial version for the first version of a tree, the successor of the
+// tree's version otherwise (see MutableTree.WorkingVersion).
+func (t *ImmutableTree) nextVersion() int64 {
+	version := t.version + 1
+	if version == 1 && t.ndb != nil && t.ndb.opts.InitialVersion > 0 {
+		version = int64(t.ndb.opts.InitialVersion) // nolint:gosec // the integer version is always positive
+	}
+	return version
 }
 
 // Export returns an iterator that exports tree nodes as ExportNodes. These nodes can be
